@@ -233,7 +233,12 @@ func (b *backend) GetPartitions(ctx context.Context, r *proto.ListPartitionReque
 
 	for idx, p := range partitions {
 		// append range start of partition only
-		resp.PartitionKeys = append(resp.PartitionKeys, p.Start)
+		if idx == 0 {
+			resp.PartitionKeys = append(resp.PartitionKeys, p.Start)
+		} else {
+			// an inner border must not split the versions of one key over two partitions
+			resp.PartitionKeys = append(resp.PartitionKeys, b.alignPartitionBorder(p.Start))
+		}
 
 		// append last end of partition
 		if idx == len(partitions)-1 {
@@ -241,6 +246,19 @@ func (b *backend) GetPartitions(ctx context.Context, r *proto.ListPartitionReque
 		}
 	}
 	return resp, nil
+}
+
+// alignPartitionBorder moves a border inside the versions of a key back to the revision key of that key,
+// as scanner does for its workers, so that every key belongs to exactly one advertised partition
+func (b *backend) alignPartitionBorder(border []byte) []byte {
+	if len(border) < len(b.coder.EncodeRevisionKey(nil)) {
+		return border
+	}
+	userKey, revision, err := b.coder.Decode(border)
+	if err == nil && revision != 0 {
+		return b.coder.EncodeRevisionKey(userKey)
+	}
+	return border
 }
 
 // ListByStream implements Backend interface
